@@ -302,7 +302,7 @@ func (m *Model) evalCall(e *Expr, asValue bool) (Val, *mErr) {
 		m.calls = append(m.calls, s+")")
 	}
 	switch e.S {
-	case "pn":
+	case "pn", "pnn":
 		if err := want("n"); err != nil {
 			return Val{}, err
 		}
